@@ -29,7 +29,7 @@ MUTANTS = [
         {"file": "src/coordinator/sync.rs", "old": "            \"SETCLUSTER_TMP\".to_string(),", "new": "            \"SETCLUSTER\".to_string(),"}],
      "expect": "C07.D2:order"},
     {"name": "commit-failure-ignored", "file": "src/coordinator/core.rs", "old": "            error!(\"failed to commit migration state: {:?}\", err);\n            return Err(err);", "new": "            error!(\"failed to commit migration state: {:?}\", err);", "expect": "C07.D1:failed-commit"},
-    {"name": "sync-first-batch-only", "file": "src/coordinator/core.rs", "after": "ProxyMetaRespSynchronizer<P, M, S>\n{", "old": "        while let Some(results) = s.next().await {\n            let mut proxies = vec![];", "new": "        if let Some(results) = s.next().await {\n            let mut proxies = vec![];", "expect": "C07.D4"},
+    {"name": "sync-first-batch-only", "file": "src/coordinator/core.rs", "after": "impl<P: ProxiesRetriever, M: ProxyMetaRetriever, S: ProxyMetaSender>\n    ProxyMetaRespSynchronizer<P, M, S>", "old": "        while let Some(results) = s.next().await {\n            let mut proxies = vec![];", "new": "        if let Some(results) = s.next().await {\n            let mut proxies = vec![];", "expect": "C07.D4"},
     {"name": "destination-error-ignored", "file": "src/coordinator/core.rs", "old": "        Self::set_cluster_meta(dst_address, meta_retriever, sender).await?;\n", "new": "        if let Err(err) = Self::set_cluster_meta(dst_address, meta_retriever, sender).await {\n            error!(\"failed to update destination: {:?}\", err);\n        }\n", "expect": "C07.D1:source-only-after-destination-ok"},
     {"name": "send-skipped-for-fresh-proxy", "file": "src/coordinator/core.rs", "old": "            None => return Ok(()),\n        };\n        if let Err(err) = sender.send_meta(proxy).await {", "new": "            None => return Ok(()),\n        };\n        if proxy.get_nodes().is_empty() {\n            return Ok(());\n        }\n        if let Err(err) = sender.send_meta(proxy).await {", "expect": "C07.D5:send-skipped-only-for-unknown-proxy"},
     {"name": "synchronizer-remembers-addresses", "edits": [
@@ -101,8 +101,16 @@ def _sync_migration(ctx):
             from ..lib import branch_conditions
             okb = False
             for gd, discr, val in branch_conditions(b, s_[0], dom):
-                if d[0] in dom.get(gd, ()) and du.slice_operand(discr).has_call("set_cluster_meta"):
-                    okb = True
+                if not (d[0] in dom.get(gd, ()) and du.slice_operand(discr).has_call("set_cluster_meta")):
+                    continue
+                # it must be the Ok / Continue arm of the destination push's *result* (the `?`), not merely the
+                # Poll::Ready arm of awaiting it
+                pl_ = discr.get("mv") or discr.get("cp")
+                for df in du.defs.get(pl_["l"], []) if pl_ else []:
+                    if df[0] == "assign" and df[3]["rv"]["k"] == "discr":
+                        ty_ = b.locals[df[3]["rv"]["p"]["l"]]["ty"]
+                        if (ty_.startswith("std::ops::ControlFlow<") or ty_.startswith("std::result::Result<")) and val == 0 and not df[3]["rv"]["p"]["p"]:
+                            okb = True
             ctx.check(okb, "C07.D1", "source-only-after-destination-ok", site(b, s_[0]), ok="the source is updated only when the destination update succeeded",
                       bad="the source update does not depend on the result of the destination update: after a lost call to the destination the source gives the slots away while the destination still has the pre-commit metadata")
         # commit argument is the reported task
